@@ -148,7 +148,7 @@ def cases(tier, rnd):
         out.append(run_case(rnd, 3, [variant("0"), variant(hs(), cpus=2, finish=perm_not_identity(rnd, 3), sleep={"0": [0.5, 0]})]))
         return out + tail
     out.append({"kind": "zero_chains"})
-    for i in range(14):
+    for i in range(21):
         k = [1, 2, 3, 2, 4, 1, 3][i % 7]
         vs = [variant("0")]
         if k == 1:
@@ -429,7 +429,7 @@ def check_run(ctx, case):
                                 "phyclone/run.py:run_phyclone_chain", "chain-num-not-carried")
         ctx.stat("main_and_first_child_coincide" if body["main"] == body["c0"] else "main_and_first_child_differ")
         gens_distinct = len(set(body.values())) == len(body)
-        for i in full:
+        for i in (full if ctx.lean is not None else []):
             r = usable[i]
             ord_ = r["finished"] if sorted(r["finished"]) == list(range(k)) else list(range(k))
             ans = ctx.ask({"op": "chains", "k": k, "ord": ord_, "body": body})
@@ -477,6 +477,36 @@ def check_run(ctx, case):
                      "collected_orders": [usable[i]["finished"] for i in sorted(usable)],
                      "worker_finish_orders": [marker_order(usable[i], "finish_") for i in sorted(usable)],
                      "wall_s": [usable[i]["wall"] for i in sorted(usable)], "distinct_trees": distinct_trees})
+
+
+SEARCH_BUDGET = 240
+
+
+def search(ctx, failed_cases, rnd, deadline):
+    """Oracle-only (no model): re-execute the run cases on which the correspondence broke under more hash seeds and
+    forced schedules, then fresh cases, looking for two executions with the same seed and different traces."""
+    todo = [c for c in failed_cases if isinstance(c, dict) and c.get("kind") == "run"][:2]
+    seen = set()
+    fresh = 0
+    while time.time() < deadline - 60 and not ctx.oracle_failures:
+        if todo:
+            base = todo.pop(0)
+            key = json.dumps(base, sort_keys=True)
+            if key in seen:
+                continue
+            seen.add(key)
+        elif fresh < 2:
+            fresh += 1
+            base = run_case(rnd, rnd.choice([2, 3]), [])
+        else:
+            break
+        k = base["opts"]["num_chains"]
+        vs = [variant("0"), variant("1"), variant("2"), variant("random"), variant("random")]
+        if k > 1:
+            for v in vs[1:]:
+                v["finish"] = perm_not_identity(rnd, k)
+        case = dict(base, variants=vs)
+        check_run(ctx, case)
 
 
 # ------------------------------------------------------------------------------ malformed requests
